@@ -61,7 +61,7 @@ def run(prog, res):
   res.floor('W3', 4)
   res.floor('W1', 45)
   res.floor('W5', 14)
-  res.floor('W6', 8)
+  res.floor('W6', 15)
   res.floor('O1', 3)
 
 
@@ -761,6 +761,23 @@ def _w6(prog, res):
               'lattice dimensions in RTL ensembles' % (
                   val, 'monotone' if a == 1 else a,
                   'monotone' if b == 1 else 'unconstrained' if b == 0 else b))
+  # the predicate is monotone exactly when the calibrator in front of the
+  # lattice / linear dimension is order-constrained: the calibrated value then
+  # moves in a known direction and the downstream dimension must be
+  # increasing for the model to be monotone / ordered
+  EXPECTED = {'none': 0, 'increasing': 1, 'decreasing': 1, 'pairs': 1}
+  for (cls, val), row in sorted(results.items()):
+    a = row['lattice/linear dims']
+    res.check(a == EXPECTED[cls], 'W6',
+              'monotone-predicates|expected:%s:%s' % (cls, val), f1.loc(chain),
+              'spelling %s -> downstream dimension %s' % (
+                  val, 'monotone' if a else 'unconstrained'),
+              'a feature whose monotonicity is %s gets a %s downstream '
+              'lattice / linear dimension; expected %s because its '
+              'calibrator is %s' % (
+                  val, 'monotone' if a == 1 else 'unconstrained' if a == 0
+                  else a, 'monotone' if EXPECTED[cls] else 'unconstrained',
+                  'order-constrained' if EXPECTED[cls] else 'unconstrained'))
   # synonyms agree inside each predicate
   for cls in ('none', 'increasing', 'decreasing'):
     rows = [r for (c, v), r in results.items() if c == cls]
